@@ -116,6 +116,17 @@ CHECKS = {
         "depend on set order (explored in C11); known findings matched exactly from pins/C13.json.",
         "DESIGN.md section 5 C13",
     ),
+    "C16": (
+        "vmc/c16.py (exhaustive spelling x position product)",
+        "exploration",
+        "exhaustive product of identifier spellings (case pattern x quote style per dialect) x ordered pairs of syntactic positions; reference normalisation as oracle",
+        "15 position-pair templates (table, schema, db.schema, column alias / name / column list -> later reference, alias and table name -> qualifier, "
+        "CTE name -> FROM, rename operand, derived alias, self read) x every ordered pair of spellings of one base name (3 case patterns x the quote styles "
+        "of the dialect) x 7 dialects: the script must treat the two spellings as one entity iff their reference normalisations are equal, and print the "
+        "normalised spelling; plus ==/hash of Schema, Table, Column over every spelling pair.",
+        "Trusted: the reference normalisation N (unquoted -> lower, quoted -> quotes stripped); the per-template chaining evidence.",
+        "DESIGN.md section 5 C16",
+    ),
 }
 
 NOT_YET = "check not built yet in this revision (planned in DESIGN.md section 5/11); not claimed"
